@@ -51,7 +51,7 @@ def _scripts(rng, path, alphabet, lc, n):
 def run(ctx):
     devs = ctx.deviations("D-C16")
     # 1. design-level MC: arithmetic + tamper evidence + seekability, exhaustive with scaled constants
-    ctx.mc("Aead", "Aead.MC.cfg", workers=ctx.pick(4, 8), timeout=ctx.pick(400, 1800), subst={"MaxFull": ctx.pick("2", "4")})
+    ctx.mc("Aead", "Aead.MC.cfg", workers=ctx.pick(4, 8), timeout=ctx.pick(400, 1800), subst={"MaxFull": ctx.pick("1", "3")})
 
     # 2. TLC enumerates the conformance combinations (model of the code = open deviations, for the probe tags)
     g = ctx.tlc("AeadGen", "Aead.Gen.cfg", workers=1, timeout=900, count_mc=False, subst={"Deviations": devs})
